@@ -78,6 +78,24 @@ func history(t *tree.Tree, hseed int64) {
 			}
 		}
 	}
+	// round 7b: a tip is removed (fewer branches than when CutEdgesMaxLength numbered them, fewer tips than when
+	// ToDistanceMatrix numbered them: ids that are now out of range or no longer a bijection).  Drawn AFTER the
+	// edits so that the histories of older seeds keep their edits.
+	if cur := t.Tips(); len(cur) >= 4 && r.Intn(2) == 0 {
+		k := 1 + r.Intn(2)
+		var gone []string
+		idx := r.Perm(len(cur))[:k]
+		if r.Intn(2) == 0 {
+			idx[0] = len(cur) - 1 // the last tip of the walk: the branches before it keep their indices
+			if k == 2 && idx[1] == idx[0] {
+				idx = idx[:1]
+			}
+		}
+		for _, i := range idx {
+			gone = append(gone, cur[i].Name())
+		}
+		core.Safe(func() { t.RemoveTips(false, gone...) })
+	}
 }
 
 // afterHistory builds the tree, runs the history and returns the tree with its alpha dump.  The edits are
